@@ -78,6 +78,25 @@ def c09(r):
     r.tlc_validate("SyncTrace", t, ["C09.", "C02.Halted"])
 
 
+def c10(r):
+    r.tlc_exhaustive("BatchQueue.tla", "BatchQueue.cfg", workers=8)
+    ok, _ = r.tlc_exhaustive("BatchQueue.tla", "BatchQueue_hashkey.cfg", workers=8, expect_ok=False)
+    if ok:
+        raise Inconclusive("BatchQueue_hashkey.cfg should reproduce the (fixed) content-hash-key defect")
+    t = r.drive("queue", name="queue")
+    r.tlc_validate("QueueTrace", t, ["C10."])
+
+
+def c11(r):
+    r.tlc_exhaustive("TxFlow.tla", "TxFlow.cfg", workers=8)
+    r.tlc_exhaustive("TxFlow.tla", "TxFlow_repaired.cfg", workers=8)
+    ok, _ = r.tlc_exhaustive("TxFlow.tla", "TxFlow_strict.cfg", workers=8, expect_ok=False)
+    if ok:
+        raise Inconclusive("TxFlow_strict.cfg no longer reproduces the C11-pop-before-save counterexample")
+    t = r.drive("txflow", name="txflow")
+    r.tlc_validate("FlowTrace", t, ["C11."])
+
+
 def c05(r):
     syncer(r, ["C05.", "C02."], crash=True)
 
@@ -110,7 +129,7 @@ def c08(r):
     submitter(r, ["C08."])
 
 
-PIPELINES = {"C01": c01, "C04": c04, "C02": c02, "C05": c05, "C06": c06, "C07": c07, "C08": c08, "C03": c03, "C09": c09}
+PIPELINES = {"C01": c01, "C04": c04, "C02": c02, "C05": c05, "C06": c06, "C07": c07, "C08": c08, "C03": c03, "C09": c09, "C10": c10, "C11": c11}
 ASSUME = {}
 FINISH = {}
 
@@ -119,4 +138,4 @@ def REPLAY_MONITOR(pid, path):
     import os
     import re
     m = re.match(r"%s-([A-Za-z0-9]+)-" % pid, os.path.basename(path))
-    return m.group(1) if m else {"C01": "ProducerTrace", "C04": "ProducerTrace", "C02": "SyncTrace", "C05": "SyncTrace", "C03": "SyncTrace", "C09": "SyncTrace", "C06": "SubmitTrace", "C07": "SubmitTrace", "C08": "SubmitTrace"}[pid]
+    return m.group(1) if m else {"C01": "ProducerTrace", "C04": "ProducerTrace", "C02": "SyncTrace", "C05": "SyncTrace", "C03": "SyncTrace", "C09": "SyncTrace", "C10": "QueueTrace", "C11": "FlowTrace", "C06": "SubmitTrace", "C07": "SubmitTrace", "C08": "SubmitTrace"}[pid]
